@@ -830,11 +830,20 @@ class EventGenerator:
         Yields:
             An iterator of sax events.
         """
-        if var.list_element and collections.is_array(value):
+        if collections.is_array(value) and not self.is_tokens_choice(value, var):
             for val in value:
                 yield from self.convert_choice(val, var, namespace)
         else:
             yield from self.convert_choice(value, var, namespace)
+
+    @classmethod
+    def is_tokens_choice(cls, value: Any, var: XmlVar) -> bool:
+        """Return whether the array is the tokens value of a single valued field."""
+        return (
+            not var.list_element
+            and any(choice.tokens for choice in var.elements.values())
+            and not any(collections.is_array(val) for val in value)
+        )
 
     def convert_choice(
         self, value: Any, var: XmlVar, namespace: str | None
